@@ -651,6 +651,13 @@ RULES = {
     "R26": Rule("R26", "V.chunks(N).map(|chunk| { chunk.iter().rev().fold(INIT, |acc, &c| BODY) }).collect() -> nested index loops building the Vec (std: `chunks(N)` yields consecutive sub-slices of length N, the last possibly shorter; `rev().fold` folds from the last element down; `collect` pushes in order)",
                 "$v . chunks ( $$n ) . map ( | $chunk | { $chunk . iter ( ) . rev ( ) . fold ( $init , | $acc , & $c | $$body ) } ) . collect ( )",
                 "{ let mut out__ = Vec :: new ( ) ; let n__ : usize = $$n ; let mut i__ = 0 ; while i__ < $v . len ( ) { let e__ = if $v . len ( ) - i__ < n__ { $v . len ( ) } else { i__ + n__ } ; let $chunk = & $v [ i__ .. e__ ] ; let mut $acc = $init ; let mut j__ = $chunk . len ( ) ; while j__ > 0 { j__ -= 1 ; let $c = $chunk [ j__ ] ; $acc = $$body ; } out__ . push ( $acc ) ; i__ = e__ ; } out__ }"),
+    "R10d": Rule("R10d", "for c in &V { BODY } (V: Vec<T>) -> index loop with `let c = &V[i]`",
+                 "for $c in & $$v { $$body }", "{ let mut i__ = 0 ; while i__ < $$v . len ( ) { let $c = & $$v [ i__ ] ; i__ += 1 ; $$body } }",
+                 guard=lambda e: e["$$v"] and all(t not in (";", "=", "{", "}", ",", "(") for t in e["$$v"])),
+    "R12n": Rule("R12n", "while let Some(&0) = V.last() { S } -> while __last_is_zero(&V) { S }  (pattern semantics: V non-empty and its last element equals 0)",
+                 "while let Some ( & 0 ) = $v . last ( ) { $$s }", "while __last_is_zero ( & $v ) { $$s }"),
+    "R10e": Rule("R10e", "for &c in V { BODY } (V: &[T], T: Copy) -> index loop with `let c = V[i]`",
+                 "for & $c in $v { $$body }", "{ let mut i__ = 0 ; while i__ < $v . len ( ) { let $c = $v [ i__ ] ; i__ += 1 ; $$body } }"),
     "R17": Rule("R17", "self.sign.cmp(&other.sign) -> sign_cmp(&self.sign, &other.sign)",
                 "self . sign . cmp ( & other . sign )", "sign_cmp ( & self . sign , & other . sign )"),
     "R2c": Rule("R2c", "if let Some(&x) = E { S } -> if let Some(x_r__) = E { let x = *x_r__; S }  (Copy element type)",
